@@ -454,3 +454,70 @@ def require_paths(recs, fi, minimum=1):
     if len(ok) < minimum:
         raise AnalysisError('%s: only %d non-raising paths found (expected >= %d)' % (fi.qualname, len(ok), minimum))
     return ok
+
+
+# ---------------------------------------------------------------------------
+# concrete evaluation of an expression DAG (used to fold a DAG over a finite domain)
+# ---------------------------------------------------------------------------
+class NoEval(Exception):
+    pass
+
+
+def eval_sym(v, env):
+    """Value of DAG `v` with leaves bound by env {leaf repr: number}.  Only arithmetic nodes."""
+    if isinstance(v, bool) or v is None:
+        raise NoEval(repr(v))
+    if isinstance(v, (int, float)):
+        return v
+    if isinstance(v, Sym):
+        if not v.args:
+            if v.op in env:
+                return env[v.op]
+            raise NoEval('unbound leaf %s' % v.op)
+        a = [eval_sym(x, env) for x in v.args]
+        op = v.op
+        try:
+            if op == 'add':
+                return a[0] + a[1]
+            if op == 'sub':
+                return a[0] - a[1]
+            if op == 'mul':
+                return a[0] * a[1]
+            if op == 'div':
+                return a[0] / a[1]
+            if op == 'floordiv':
+                return a[0] // a[1]
+            if op == 'mod':
+                return a[0] % a[1]
+            if op == 'pow':
+                return a[0] ** a[1]
+            if op == 'neg':
+                return -a[0]
+            if op == 'int':
+                return int(a[0])
+            if op == 'round':
+                return round(*a)
+            if op == 'abs':
+                return abs(a[0])
+            if op == 'and':
+                return a[0] & a[1]
+            if op == 'or':
+                return a[0] | a[1]
+            if op == 'lshift':
+                return a[0] << a[1]
+            if op == 'rshift':
+                return a[0] >> a[1]
+        except ZeroDivisionError:
+            raise NoEval('division by zero')
+        raise NoEval('operator %s' % op)
+    raise NoEval(repr(v))
+
+
+def norm_round(v):
+    """int(round(X)) -> ROUND(X); round(X) alone -> RND(X)."""
+    if isinstance(v, Sym):
+        args = tuple(norm_round(a) for a in v.args)
+        if v.op == 'int' and len(args) == 1 and isinstance(args[0], Sym) and args[0].op == 'round' and len(args[0].args) == 1:
+            return Sym('ROUND', args[0].args[0])
+        return Sym(v.op, *args) if args else v
+    return v
